@@ -347,6 +347,9 @@ class LazyArr:
     def assign_all(self, val):
         self[(slice(None),) * self.ndim] = val
 
+    def fill(self, val):
+        self.assign_all(val)
+
     def astype(self, t, **kw):
         dt = _dtype_name(t)
         f = self.frozen()
@@ -354,7 +357,12 @@ class LazyArr:
             if dt == 'i4':
                 return LazyArr(self.shape, lambda idx: wrap32(f.get(idx)), 'num', 'i4')
             if dt in ('i8', 'f8', 'f4'):
-                return LazyArr(self.shape, lambda idx: f.get(idx), 'num', dt)
+                def conv(idx, dt=dt):
+                    v = f.get(idx)
+                    if type(v).__name__ == 'SymFloat':      # binary64 <-> binary32 is a rounding step
+                        return v.to_f32() if dt == 'f4' else type(v)(v.t) if v.f32 else v
+                    return v
+                return LazyArr(self.shape, conv, 'num', dt)
             raise Unsupported("astype(%s) of integer array" % dt)
         if dt in ('f4', 'f8'):
             return LazyArr(self.shape, lambda idx: f.get(idx), 'prov', dt)
@@ -863,7 +871,20 @@ class ShimNP:
             if isinstance(b, LazyArr) and b.size == 1:
                 b = b.sym_scalar()
             if isinstance(a, LazyArr) or isinstance(b, LazyArr):
-                raise Unsupported("np.isclose on arrays")
+                # elementwise (array vs scalar, or two arrays of one shape): a boolean lazy array
+                if (rtol, atol) != (1e-05, 1e-08):
+                    raise Unsupported("np.isclose with non-default tolerances")
+                arr, other, arr_is_a = (a, b, True) if isinstance(a, LazyArr) else (b, a, False)
+                if arr.kind != 'num' or (isinstance(other, LazyArr) and (other.kind != 'num' or other.shape != arr.shape)):
+                    raise Unsupported("np.isclose on sample arrays / with broadcasting")
+                f = arr.frozen()
+                g = other.frozen() if isinstance(other, LazyArr) else None
+
+                def elem(idx):
+                    x = f.get(idx)
+                    y = g.get(idx) if g is not None else other
+                    return self.isclose(x, y) if arr_is_a else self.isclose(y, x)
+                return LazyArr(arr.shape, elem, 'num', 'bool')
         if (rtol, atol) != (1e-05, 1e-08):
             raise Unsupported("np.isclose with non-default tolerances")
         for v in (a, b):
